@@ -1567,9 +1567,32 @@ func (tb *TB) fpPow2(c *Term) (int, bool) {
 	return s.e - s.bias, true
 }
 
+// fpTree reports whether t is an ite tree (depth <= 6) whose leaves are
+// structured floats or constants, so that FP operations can be pushed into it.
+func (tb *TB) fpTree(t *Term, depth int) bool {
+	if t.op == OpIte && depth < 6 {
+		return tb.fpTree(t.args[1], depth+1) && tb.fpTree(t.args[2], depth+1)
+	}
+	if t.IsConst() {
+		return true
+	}
+	_, ok := tb.fpStruct(t)
+	return ok
+}
+
+func (tb *TB) fpMap(t *Term, f func(*Term) *Term) *Term {
+	if t.op == OpIte {
+		return tb.Ite(t.args[0], tb.fpMap(t.args[1], f), tb.fpMap(t.args[2], f))
+	}
+	return f(t)
+}
+
 func (tb *TB) FpBin(op Op, a, b *Term) *Term {
 	if a.sort != b.sort {
 		panic("fp sort mismatch")
+	}
+	if a.op == OpIte && b.IsConst() && tb.fpTree(a, 0) {
+		return tb.fpMap(a, func(x *Term) *Term { return tb.FpBin(op, x, b) })
 	}
 	if (op == OpFpDiv || op == OpFpMul) && b.IsConst() && !a.IsConst() {
 		if k, ok := tb.fpPow2(b); ok {
@@ -1636,6 +1659,12 @@ func (tb *TB) FpNeg(a *Term) *Term {
 func (tb *TB) FpCmp(op Op, a, b *Term) *Term {
 	if a.sort != b.sort {
 		panic("fp sort mismatch")
+	}
+	if a.op == OpIte && b.IsConst() && tb.fpTree(a, 0) {
+		return tb.fpMap(a, func(x *Term) *Term { return tb.FpCmp(op, x, b) })
+	}
+	if b.op == OpIte && a.IsConst() && tb.fpTree(b, 0) {
+		return tb.fpMap(b, func(y *Term) *Term { return tb.FpCmp(op, a, y) })
 	}
 	if !(a.IsConst() && b.IsConst()) {
 		sa, oka := tb.fpStruct(a)
@@ -1715,6 +1744,9 @@ func (tb *TB) FpToFp(a *Term, s Sort) *Term {
 	if a.sort == s {
 		return a
 	}
+	if a.op == OpIte && tb.fpTree(a, 0) {
+		return tb.fpMap(a, func(x *Term) *Term { return tb.FpToFp(x, s) })
+	}
 	if a.IsConst() {
 		return tb.fpOf(fpVal(a), s)
 	}
@@ -1726,6 +1758,9 @@ func (tb *TB) FpToFp(a *Term, s Sort) *Term {
 }
 
 func (tb *TB) FpToBV(a *Term, w int, signed bool) *Term {
+	if a.op == OpIte && tb.fpTree(a, 0) {
+		return tb.fpMap(a, func(x *Term) *Term { return tb.FpToBV(x, w, signed) })
+	}
 	if sa, ok := tb.fpStruct(a); ok && !sa.neg && !a.IsConst() {
 		p := sa.e - sa.bias
 		if p < 0 {
@@ -1775,6 +1810,9 @@ func (tb *TB) FpFromBV(a *Term, s Sort, signed bool) *Term {
 }
 
 func (tb *TB) FpFloor(a *Term) *Term {
+	if a.op == OpIte && tb.fpTree(a, 0) {
+		return tb.fpMap(a, tb.FpFloor)
+	}
 	if a.IsConst() {
 		return tb.fpOf(math.Floor(fpVal(a)), a.sort)
 	}
